@@ -604,7 +604,12 @@ fn matcher_checks(cx: &mut Ctx, b: &Built, o: &Opts, hays: &[Vec<u8>], extra_wor
     // engine vs denotation: one pipelined batch of requests for all short buffers
     let engine_ok = sx.len() < 30000;
     // short buffers always; buffers up to 48 bytes when the HIR is small (cost of `ends` grows with both)
-    let max_hay = if sx.len() < 600 { 48 } else { 14 };
+    // (quadratic per repetition level), so long buffers only for shallow repetition nesting
+    let max_hay = match (sx.len() < 600, rep_depth(hir)) {
+        (true, 0) | (true, 1) => 48,
+        (true, 2) => 24,
+        _ => 14,
+    };
     let span_reqs: Vec<String> = hays
         .iter()
         .filter(|h| engine_ok && h.len() <= max_hay)
@@ -692,21 +697,32 @@ fn matcher_checks(cx: &mut Ctx, b: &Built, o: &Opts, hays: &[Vec<u8>], extra_wor
                     .collect()
             };
             cx.rep.branch("engine:checked");
+            // EngineSpec of theorem C11: the reported match is a match of the denotation and no match ends
+            // strictly before it starts (the engine never jumps over a match).  "Leftmost" itself is measured
+            // only: regex-automata 0.4.7 does not always return the leftmost match (inner-literal optimisation,
+            // e.g. Sherlock|b[a-z]SherlockSherlock on baSherlockSherlock gives (2,10)).
+            let no_jump = |s0: usize| spans.iter().all(|x| s0 <= x.1);
             let ok = match first {
                 None => spans.is_empty(),
-                Some((s, e)) => !spans.is_empty() && spans.iter().map(|x| x.0).min() == Some(s) && spans.contains(&(s, e)),
+                Some((s, e)) => spans.contains(&(s, e)) && no_jump(s),
             };
+            if let Some((s, _)) = first {
+                if spans.iter().map(|x| x.0).min() != Some(s) {
+                    cx.rep.branch("engine:not-leftmost(upstream regex-automata)");
+                    if cx.rep.notes.len() < 40 {
+                        cx.rep.notes.push(format!("engine returned a non-leftmost match {:?} on {:?} (spans {:?}) HIR {}", first, show(hay), spans, sx));
+                    }
+                }
+            }
             // every reported match must be a span of the denotation
             let ok2 = ms.iter().all(|m| spans.contains(m));
-            // EngineSpec of theorem C11: shortest_match reports the end of a match with minimal start
             let sh = b.matcher.shortest_match(hay).unwrap();
-            let smin = spans.iter().map(|x| x.0).min();
             let ok3 = match sh {
                 None => spans.is_empty(),
-                Some(i) => smin.map_or(false, |s0| spans.contains(&(s0, i))),
+                Some(i) => spans.iter().any(|x| x.1 == i && no_jump(x.0)),
             };
             if !ok3 {
-                cx.bad("impl_vs_model", "", TIE_ENGINE, format!("shortest_match {:?} on {:?} is not the end of a leftmost match; Matches spans {:?} (HIR {})", sh, show(hay), spans, sx));
+                cx.bad("impl_vs_model", "", TIE_ENGINE, format!("shortest_match {:?} on {:?} is not the end of a match that no other match precedes; Matches spans {:?} (HIR {})", sh, show(hay), spans, sx));
             }
             if !ok || !ok2 {
                 cx.bad("impl_vs_model", "", TIE_ENGINE, format!("engine and denotation disagree on {:?}: engine first {:?} all {:?}, Matches spans {:?} (HIR {})", show(hay), first, ms, spans, sx));
@@ -1361,6 +1377,47 @@ fn main() {
                             }
                         }
                     }
+                }
+            }
+        }
+        // (c3) every limit of the extractor at L-1, L, L+1, 2L with exact material on both sides, and a
+        // matching witness line: limit_repeat (10), limit_class (10), limit_literal_len (100), limit_total (64)
+        {
+            let mut pats: Vec<(String, Vec<u8>)> = vec![];
+            for n in [9usize, 10, 11, 12, 20] {
+                // repetition counts (exact, bounded, open) of a two-byte sub-expression
+                pats.push((format!("x(ab){{{}}}c", n), format!("x{}c", "ab".repeat(n)).into_bytes()));
+                pats.push((format!("x(?:ab|cd){{{}}}c", n), format!("x{}c", "ab".repeat(n)).into_bytes()));
+                pats.push((format!("x(ab){{{},}}c", n), format!("x{}c", "ab".repeat(n + 1)).into_bytes()));
+                pats.push((format!("x(ab){{{},{}}}c", n, n + 2), format!("x{}c", "ab".repeat(n + 1)).into_bytes()));
+                pats.push((format!("[a-z]+(ab){{{}}}c", n), format!("q{}c", "ab".repeat(n)).into_bytes()));
+                // class sizes
+                let cls: String = (0..n).map(|i| (b'a' + i as u8) as char).collect();
+                pats.push((format!("x[{}]yz", cls), b"xayz".to_vec()));
+                pats.push((format!("x[{}]yz", cls), format!("x{}yz", (b'a' + (n - 1) as u8) as char).into_bytes()));
+            }
+            for n in [99usize, 100, 101, 200] {
+                pats.push((format!("{}[0-9]z", "k".repeat(n)), format!("{}7z", "k".repeat(n)).into_bytes()));
+                pats.push((format!("(?:{})q", "mn".repeat(n / 2 + 1)), format!("{}q", "mn".repeat(n / 2 + 1)).into_bytes()));
+            }
+            for n in [63usize, 64, 65, 128] {
+                // totals: an alternation of n literals, and a cross product of about n
+                let alts: Vec<String> = (0..n).map(|i| format!("w{:03}", i)).collect();
+                pats.push((format!("({})[a-z]", alts.join("|")), format!("w{:03}q", n - 1).into_bytes()));
+                let k = (n as f64).sqrt().ceil() as usize;
+                let a: Vec<String> = (0..k).map(|i| format!("a{}", i)).collect();
+                let b2: Vec<String> = (0..(n + k - 1) / k).map(|i| format!("b{}", i)).collect();
+                pats.push((format!("({})({})[0-9]", a.join("|"), b2.join("|")), format!("a{}b{}5", k - 1, 0).into_bytes()));
+            }
+            for (p, wit) in pats {
+                for word in [false, true] {
+                    let o = Opts { word, ..Opts::default_rg() };
+                    let mut buf = b"zzz\n".to_vec();
+                    buf.extend_from_slice(&wit);
+                    buf.extend_from_slice(b"\nqqq\n");
+                    let line = case_line(&o, &[p.clone()], &[wit.clone(), buf]);
+                    run_case(&line, &mut drv, &mut rep, args.thorough);
+                    rep.branch("stream:extractor-limits");
                 }
             }
         }
